@@ -76,11 +76,23 @@ def atoms_of(text):
     return {v for v in names if v in {"f", "f2", "g", "h", "k", "x"}}
 
 
+_NROWS = 3
+_HDEPTH = 3
+
+
+def prepare(tier, seed):
+    global _NROWS, _HDEPTH
+    if tier == "thorough":
+        _NROWS, _HDEPTH = 4, 4
+
+
 def units(tier, seed):
     u = []
     for d in DESIGNS:
         u.append([{"kind": "placement", "design": d}])
-    u.append([{"kind": "history", "design": d} for d in ["y ~ f + (x|g)", "y ~ 0 + f:g + (f|h)"]])
+    hd = ["y ~ f + (x|g)", "y ~ 0 + f:g + (f|h)"] + (["y ~ C(k) + (0 + f|g:h)", "y ~ S(f) + (x|g) + (1|h)"] if tier == "thorough" else [])
+    for d in hd:
+        u.append([{"kind": "history", "design": d}])
     u.append([{"kind": "config"}])
     return u
 
@@ -91,7 +103,7 @@ def expand(unit):
 
 def base_rows():
     df = train()
-    return df.iloc[[0, 7, 19]].reset_index(drop=True)
+    return df.iloc[[0, 7, 19, 30][:_NROWS]].reset_index(drop=True)
 
 
 def unseen_value(var, i):
@@ -99,8 +111,8 @@ def unseen_value(var, i):
 
 
 def placements(vars_, tier="quick"):
-    rows = [0, 1, 2]
-    subs = [list(c) for n in (1, 2, 3) for c in itertools.combinations(rows, n)]
+    rows = list(range(_NROWS))
+    subs = [list(c) for n in range(1, _NROWS + 1) for c in itertools.combinations(rows, n)]
     out = []
     for v in vars_:
         for s in subs:
@@ -294,7 +306,14 @@ def check_history(case, acc):
     nd0, clean0 = make_frames(pl)
     exp_c = expected_common(ref, nd0, clean0, pl)
     exp_g = expected_group(ref, nd0, clean0, pl)[0]
-    for L in (1, 2, 3):
+    cvars, evars, fvars = set(), set(), set()
+    for name in ref.common.terms:
+        cvars |= atoms_of(name)
+    for name in ref.group.terms:
+        e_, f_ = name.split("|")
+        evars |= atoms_of(e_)
+        fvars |= atoms_of(f_)
+    for L in range(1, _HDEPTH + 1):
         for hist in itertools.product(events, repeat=L):
             if not any(e.startswith("eval") for e in hist):
                 continue
@@ -313,9 +332,18 @@ def check_history(case, acc):
                 out, exc, ours = run_eval(M, nd)
                 tag = f"{d!r} history={list(hist[: i + 1])}"
                 acc.traces += 1
+                if ev == "evalc":
+                    hit = any(v in cvars for v in pl)
+                    must_raise, may_raise = hit, hit
+                else:
+                    hit = any(v in evars or v in fvars for v in pl)
+                    must_raise = any(v in evars for v in pl)
+                    may_raise = hit  # unseen groups in error mode: not demanded either way
                 if mode == "error":
-                    if exc is None:
+                    if must_raise and exc is None:
                         problems.setdefault(("mode-at-evaluation-time", "no-exception"), f"{tag}: did not raise in error mode")
+                    if not may_raise and exc is not None:
+                        problems.setdefault(("mode-at-evaluation-time", "raised"), f"{tag}: raised {type(exc).__name__} although nothing is unseen in that part")
                     continue
                 if exc is not None:
                     problems.setdefault(("mode-at-evaluation-time", "raised"), f"{tag}: raised {type(exc).__name__} in {mode} mode")
@@ -323,10 +351,10 @@ def check_history(case, acc):
                 exp = exp_c if ev == "evalc" else exp_g
                 if np.asarray(out.design_matrix).shape != exp.shape or not np.allclose(np.asarray(out.design_matrix, dtype=float), exp):
                     problems.setdefault(("mode-at-evaluation-time", "values"), f"{tag}: matrix differs from the {mode}-mode expectation")
-                if mode == "warning" and not ours:
+                if mode == "warning" and hit and not ours:
                     problems.setdefault(("mode-at-evaluation-time", "no-warning"), f"{tag}: no warning in warning mode")
-                if mode == "silent" and ours:
-                    problems.setdefault(("mode-at-evaluation-time", "warned"), f"{tag}: warning in silent mode")
+                if (mode == "silent" or not hit) and ours:
+                    problems.setdefault(("mode-at-evaluation-time", "warned"), f"{tag}: unexpected warning ({mode} mode, unseen value in that part: {hit})")
     set_mode("error")
     acc.subcases(case, nh - 1, True, "histories")
     if problems:
